@@ -23,7 +23,7 @@ import time
 HERE = os.path.dirname(os.path.abspath(__file__))
 VERIF = os.path.dirname(HERE)
 REPO = os.environ.get("VERIF_REPO", "/repo")
-SEEDED = os.path.join(VERIF, "seeded")
+SEEDED = os.path.join(VERIF, os.environ.get("VERIF_SEEDED_DIR", "seeded"))   # "harmless": behaviour-preserving rewrites (a detection there is a false alarm)
 
 
 def sh(cmd, cwd=None, timeout=3600, env=None):
